@@ -883,19 +883,7 @@ def _coerce_to_pattern_ast_BinOp(
     if op_cls is not BitOr:
         return f"op must be '+', '-' or '|', not {ast.op.__class__.__name__}"
 
-    right = ast.right
-
-    if right.__class__ is Starred:
-        return 'cannot have Starred'
-
-    pat_right = _AST_COERCE_TO_PATTERN_FUNCS.get(
-        right.__class__, _coerce_to_pattern_ast_ret_empty_str)(right, is_FST, options, parse_params)
-
-    if isinstance(pat_right, str):
-        return pat_right
-
-    pat_right = pat_right[0]
-    left = ast.left
+    left = ast.left  # left before right, source edits (parentheses removal) in right do not move what was built from left
 
     if left.__class__ is Starred:
         return 'cannot have Starred'
@@ -908,6 +896,18 @@ def _coerce_to_pattern_ast_BinOp(
 
     pat_left = pat_left[0]
     pat_left_cls = pat_left.__class__
+    right = ast.right
+
+    if right.__class__ is Starred:
+        return 'cannot have Starred'
+
+    pat_right = _AST_COERCE_TO_PATTERN_FUNCS.get(
+        right.__class__, _coerce_to_pattern_ast_ret_empty_str)(right, is_FST, options, parse_params)
+
+    if isinstance(pat_right, str):
+        return pat_right
+
+    pat_right = pat_right[0]
 
     if pat_left_cls is MatchOr and not (is_FST and left.f.pars().n):
         patterns = [*pat_left.patterns, pat_right]
